@@ -26,6 +26,7 @@ class Unit:
         self.ret = None
         self.panics_if = "false"
         self.rewrites = []          # (from_pattern, to_text, rule_id)
+        self.closures = []          # dict(pat, param, ret, ensures, requires, lets)
         self.sections = {}          # 'sig' 'pre' 'post' 'impl_items' -> text
         self.loops = {}             # ordinal -> text
         self.anchors = []           # (kind, arg, text)  kind: fn_start | loop_body_start | loop_body_end | loop_before | loop_after | before | after
@@ -139,6 +140,11 @@ def parse_units(path):
                     cur.panics_if = v
                 elif k == "rewrite":
                     cur.rewrites.append(_parse_rewrite(v, path))
+                elif k == "closure":
+                    kv = dict(re.findall(r'(\w+)="(.*?)"(?=\s+\w+="|\s*$)', v))
+                    if "pat" not in kv or "param" not in kv:
+                        raise UnitError("%s:%d: closure needs pat= and param=" % (path, ln))
+                    cur.closures.append(kv)
                 elif k == "loops":
                     cur.nloops = int(v)
                 elif k == "drop_generics":
